@@ -60,9 +60,10 @@ Definition next (th : thread) : thread :=
   end.
 Definition goto (th : thread) (p : pc) : thread := TH p (prog th) (res th).
 Definition logr (th : thread) (tag v : Z) : thread := TH (tpc th) (prog th) ((tag, v) :: res th).
-(* result logged when a wait loop of the given kind observes completion *)
-Definition logk (th : thread) (kind : Z) : thread :=
-  if kind =? 2 then th else logr th (if kind =? 1 then r_waitfor else r_wait) 1.
+(* result logged when a wait loop of the given kind observes completion: wait(v) logs the word it returned on
+   (the harness reads the status word right after wait() returns, before any other thread can run) *)
+Definition logk (th : thread) (kind w : Z) : thread :=
+  if kind =? 2 then th else logr th (if kind =? 1 then r_waitfor else r_wait) (if kind =? 1 then 1 else w).
 
 Fixpoint set_nth {A} (l : list A) (n : nat) (x : A) : list A :=
   match l, n with
@@ -88,7 +89,7 @@ Definition step (s : state) (t : nat) (ch : list Z) : option (state * list Z * Z
       | PNotifyWake =>
           Some (ST w (timeouts s) (set_nth (wake_all (threads s)) t (next th)), ch, s_futex_wake)
       | PWaitLoad v kind =>
-          if w =? v then upd w (next (logk th kind)) (if kind =? 1 then s_wf_load else s_wait_load)
+          if w =? v then upd w (next (logk th kind w)) (if kind =? 1 then s_wf_load else s_wait_load)
           else upd w (goto th (PWaitFutex v w kind)) (if kind =? 1 then s_wf_load else s_wait_load)
       | PWaitFutex v cur kind =>
           if w =? cur then upd w (goto th (PBlocked v kind)) s_futex_wait
